@@ -369,6 +369,11 @@ func join(a, b context, node parse.Node, nodeName string) context {
 	c := a
 	c.element.name = b.element.name
 	if c.eq(b) {
+		if c.state == stateSpecialElementBody {
+			// e.g. `{{if .C}}<script>{{else}}<title>{{end}}`: the end tag of one of the
+			// elements does not end the other one.
+			c.enclosing = "*"
+		}
 		// The contexts differ only by their element names. The element names from the conditional
 		// branches that are accumulated in c.element.names will be checked during action sanitization
 		// to ensure that they do not lead to different sanitization contexts.
